@@ -270,7 +270,7 @@ def run_mutant(job: Dict[str, Any]) -> Dict[str, Any]:
                 # a harness error (model validation failed, canary...) is not a verdict, but it is not silence either
                 res.setdefault("harness_errors", []).append(pid)
         else:
-            res["status"] = "SURVIVED"
+            res["status"] = "NO-VERDICT(harness error only)" if res.get("harness_errors") else "SURVIVED"
         res["check_seconds"] = round(time.time() - t0)
         return res
     finally:
